@@ -327,6 +327,17 @@ func createWriterWithCtx(obs kanzi.OutputBitStream, ctx map[string]any) (*Writer
 		return nil, &IOError{msg: err.Error(), code: kanzi.ERR_INVALID_PARAM}
 	}
 
+	// Names are accepted in any letter case but some codecs select their variant
+	// (TPAQX, ROLZX, ...) by comparing the context strings: store the canonical
+	// names, exactly what the Reader rebuilds from the header types.
+	if name, err := entropy.GetName(this.entropyType); err == nil {
+		ctx["entropy"] = name
+	}
+
+	if name, err := transform.GetName(this.transformType); err == nil {
+		ctx["transform"] = name
+	}
+
 	this.blockSize = int(bSize)
 	this.available = 0
 	nbBlocks := 0
@@ -1232,6 +1243,10 @@ func (this *Reader) validateHeaderless() error {
 		if err != nil {
 			return &IOError{msg: err.Error(), code: kanzi.ERR_INVALID_PARAM}
 		}
+
+		if name, err := entropy.GetName(this.entropyType); err == nil {
+			this.ctx["entropy"] = name // canonical spelling
+		}
 	} else {
 		return &IOError{msg: "Missing entropy in headerless mode", code: kanzi.ERR_MISSING_PARAM}
 	}
@@ -1247,6 +1262,10 @@ func (this *Reader) validateHeaderless() error {
 
 		if err != nil {
 			return &IOError{msg: err.Error(), code: kanzi.ERR_INVALID_PARAM}
+		}
+
+		if name, err := transform.GetName(this.transformType); err == nil {
+			this.ctx["transform"] = name // canonical spelling
 		}
 	} else {
 		return &IOError{msg: "Missing transform in headerless mode", code: kanzi.ERR_MISSING_PARAM}
